@@ -6,6 +6,7 @@
 
 #pragma once
 
+#include <pika/config.hpp>
 #include <pika/allocator_support/internal_allocator.hpp>
 #include <pika/assert.hpp>
 #include <pika/execution/algorithms/start_detached.hpp>
@@ -201,6 +202,7 @@ namespace pika::execution::experimental {
                     op_state_head.load(std::memory_order_acquire));
                 do {
                     if (op_state->next == static_cast<void*>(this)) { return false; }
+                    PIKA_VERIF_POINT("rw.add.cas", this, 0, 0);
                 } while (!op_state_head.compare_exchange_weak(
                     op_state->next, static_cast<void*>(op_state), std::memory_order_acq_rel));
 
@@ -213,6 +215,7 @@ namespace pika::execution::experimental {
                 // signal that the queue has been processed
                 auto* current = static_cast<async_rw_mutex_operation_state_base*>(
                     op_state_head.exchange(static_cast<void*>(this), std::memory_order_acq_rel));
+                PIKA_VERIF_POINT("rw.done.xchg", this, current != nullptr, 0);
 
                 // We have now successfully acquired the head of the queue, and signaled to other
                 // threads that they can't add any more items to the queue. We can now process the
